@@ -279,7 +279,15 @@ fn check_tape(tape: &[u8], gates: &Gates, stats: &mut Stats, counting: bool) -> 
     // a history of 1..3 texts for the same URI; the last one is current
     let n = 1 + choice.below(4);
     let mut docs: Vec<Doc> = (0..n).map(|_| gen_doc(&mut t, gates)).collect();
-    let lexical_error = choice.ratio(1, 8);
+    // now and then the current text has no lexeme at all (the user has deleted everything): an
+    // empty list of tokens, not "no result"
+    let blank = choice.ratio(1, 16);
+    if blank {
+        let text = (*choice.pick(&["", "", " ", "\n", "\r\n", "\t \n\n "])).to_string();
+        let d = docs.last_mut().unwrap();
+        *d = Doc { text: text.clone(), lay: Layout { text, pieces: vec![] }, lexemes: vec![] };
+    }
+    let lexical_error = !blank && choice.ratio(1, 8);
     if lexical_error {
         let d = docs.last_mut().unwrap();
         // text that is no token: at the very start, at the very end, or directly in front of a
@@ -342,7 +350,7 @@ fn check_tape(tape: &[u8], gates: &Gates, stats: &mut Stats, counting: bool) -> 
         let lines_with_tokens = doc.text.lines().filter(|l| !l.trim().is_empty()).count();
         let comment_then_token = doc.text.lines().any(|l| l.contains("*)") && l.rsplit("*)").next().map(|r| !r.trim().is_empty()).unwrap_or(false));
         stats.case(lines_with_tokens >= 3 && comment_then_token, hash_str(&doc.text));
-        stats.class(if lexical_error { "doc.lexical-error" } else if doc.text.is_ascii() { "doc.ascii" } else { "doc.non-ascii" });
+        stats.class(if blank { "doc.blank" } else if lexical_error { "doc.lexical-error" } else if doc.text.is_ascii() { "doc.ascii" } else { "doc.non-ascii" });
         stats.class(&format!("history.{}", n));
         if reopened {
             stats.class("history.with-close-and-reopen");
